@@ -378,6 +378,19 @@ export function genWatch(rng, p) {
       late.splice(2, 0, [A("var"), "@@ABSENT@@", [A("src")]]);
     }
   }
+  // a VALUE module used through its default export (`import cfg from "./cfg_v"; … typeof cfg`): value modules are outside
+  // the Lean module model, so such histories are not tied (the file name is the marker); the fresh-session oracle applies
+  if (rng.chance(1, 6)) {
+    const entry = files.find((f) => f[1] === "entry.ts");
+    if (entry) {
+      const how = rng.below(3);
+      const imp = how === 0 ? 'import cfg from "./cfg_v";' : how === 1 ? 'import { default as cfg } from "./cfg_v";' : 'import cfg, { other } from "./cfg_v";';
+      const use = how === 2 ? "{ a: typeof cfg; b: typeof other }" : rng.pick(["typeof cfg", "{ c: typeof cfg }"]);
+      for (const v of entry.slice(2)) if (typeof v[1] === "string" && v[1] !== "@@ABSENT@@") v[1] = imp + "\n" + v[1].replace(/ \}>\(\);\n$/, `, EV: ${use} }>();\n`);
+      const mk = (val) => `const cfg = ${val} as const;\nexport const other = "o" as const;\nexport default cfg;\n`;
+      files.push([A("file"), "cfg_v.ts", [A("var"), mk("{ retries: 3 }"), [A("src")]], [A("var"), mk('{ retries: 4, mode: "x" }'), [A("src")]], [A("var"), mk('"plain"'), [A("src")]], [A("var"), "const cfg = {;\nexport default cfg;\n", A("broken")]]);
+    }
+  }
   const ops = [];
   const n = 3 + rng.below(10);
   const pickVar = (f) => (f === late ? 1 + rng.below(f.length - 3) : rng.below(f.length - 2));
